@@ -7,10 +7,10 @@ PROP = dict(
                   files={"zz_verif_fixture_test.go": "harness/main/fixture_test.go",
                          "zz_verif_c08_test.go": "harness/main/c08_test.go"},
                   timeout=900, timeout_thorough=2400)],
-    technique="Coq proof of totality (no Panic outcome) of the request-parameter parsers, dispatch and gRPC filter handling with explicit panic sites + grammar-generated JSON-RPC / HTTP / gRPC requests against the real handlers with the outcome class compared with the model",
+    technique="Coq proof of totality (no Panic outcome) of the request-parameter parsers, dispatch, REST front, gRPC filter / slot-window handling with explicit panic sites; a translator lists every potential panic site of the request-handling source on each run and a Coq theorem requires each to be classified (guarded by a named theorem or locally impossible) + grammar-generated JSON-RPC / HTTP / gRPC requests against the real handlers with the outcome class compared with the model",
     level_text="Theorems (Coq, no axioms): for every method and every params member (missing, null, non-array, any array of JSON values and option objects) the JSON-RPC handler's parse/validate stage never panics; for every gRPC stream filter (absent optional flags, malformed accounts) the call streams or returns InvalidArgument; the unguarded variants are refuted by witnesses. Tie: 3 600 grammar-generated JSON-RPC requests (+ mutated/truncated bodies, HTTP method x path shapes, gRPC messages incl. the bidirectional Get stream) against the handlers with 0/1/3 epochs loaded; any panic is a failure and the outcome class (proceeds / invalid-params / method-not-found / panic) of every request is compared with the model.",
     level_note="Trusted: Coq kernel; hand-written model C08_Requests.v (strings abstracted to what the parsers distinguish); fasthttp, grpc-go and jsoniter do not panic on the inputs they are given. Partial: response assembly over archive data (decoders, metadata parsers) is C12's subject.",
     design_ref="5 (C08)",
-    trusted=["model C08_Requests.v of request-response.go / getSignaturesForAddress.go / multiepoch.go / grpc-server.go (hand-written; tied by grammar-based differential runs)"] + COMMON_TRUSTED,
+    trusted=["translator gen/c08.go (syntactic site extraction: index, slice, unchecked assertion, dereference, input-sized make, division, panic/Must*) and the per-site reasons of C08_Sites.v marked Trusted (reviewed by hand; method calls on nil receivers and panics inside callees outside the listed files are not sites)", "model C08_Requests.v of request-response.go / getSignaturesForAddress.go / multiepoch.go / grpc-server.go (hand-written; tied by grammar-based differential runs)"] + COMMON_TRUSTED,
     assumptions=["frameworks (fasthttp, grpc-go, jsoniter) do not panic"],
 )
